@@ -839,11 +839,11 @@ func c24() {
 	wg.Wait()
 
 	// Random programs.
-	programs := r.Pick(110, 10000)
+	programs := r.Pick(110, 6000)
 	if os.Getenv("VERIF_MUX_ONLY") != "" {
 		programs = 0
 	}
-	perRound := 10
+	perRound := r.Pick(10, 24)
 	procsChoices := []int{1, 2, 4, 8, 16}
 	for base := 0; base < programs; base += perRound {
 		procs := setProcs(procsChoices[rng.Intn(len(procsChoices))])
